@@ -52,6 +52,18 @@ CLAIMED = {
         'replayed through transform_circuit / transform: branch list compared field by field (ids, order, terminals, immittance and source value electrically), '
         'node_zero_label and Circuit.ground_node.',
    ref='DESIGN.md §6 C07', technique='TLA+ spec + TLC exhaustive enumeration; spec->code scenario replay (translation validation against the specification)'),
+ 'C08': dict(
+   text='Each waveform is described in TLA+ by what it IS (value per fraction of the period, jumps and slope jumps at its break points); TLC checks for all six wave '
+        'types, amplitudes of either sign, offsets, phases of -8..8 quarter turns and every order n <= 400 that the closed-form amplitude*exp(j*phase) the library claims '
+        'equals twice the exact Fourier integral (jump method on the shifted descriptor), n = 0 the mean.  The replay binds the code to both sides: time_function against the '
+        'descriptor at 64 fractions of the (shifted) period for periods over decades and arbitrary phases (many turns), amplitude/phase/a/b/c(+-n) for every order, lookup by name.',
+   ref='DESIGN.md §6 C08', technique='TLA+ spec + TLC exhaustive check of the coefficient identity; spec->code replay'),
+ 'C09': dict(
+   text='The TLA+ specification lists the analysed frequencies (distinct source frequencies and harmonics k*w0 <= w_max, each once) and the spectral line at each as the exact '
+        'peak phasor split into the monomials 1, 1/pi, 1/pi^2 (one exact solve each, by linearity); TLC checks the circuit equations per monomial on every circuit of the bounded '
+        'generator (DC, AC, periodic sources; coinciding frequencies bit-for-bit and computed differently; w_max between/on/above harmonics).  Replay: frequency_components, '
+        'FrequencyDomainSolution one- and two-sided (w, X) for every node and component, TimeDomainSolution time functions at seeded arbitrary times.',
+   ref='DESIGN.md §6 C09', technique='TLA+ spec + TLC bounded model checking; spec->code scenario replay'),
 }
 
 PENDING_REASON = 'check not built yet in this round (planned: TLA+ model + conformance replay, see DESIGN.md §6); no claim is made until it exists'
